@@ -158,6 +158,12 @@ func (m *lm) c07Truncate(round int) map[ref.Hash]struct{} {
 		in, out := m.w.Arch.Flow(stored2, addr)
 		net := new(big.Int).Sub(in, out)
 		if net.Sign() < 0 {
+			// the node clips a negative checkpointed net to the gross inflow (known finding); whatever it stores for this
+			// address from now on - also after later truncations that bring the true net back to >= 0 - carries that clip
+			if m.clipped == nil {
+				m.clipped = map[string]bool{}
+			}
+			m.clipped[addr] = true
 			continue
 		}
 		got := new(big.Int)
@@ -168,6 +174,10 @@ func (m *lm) c07Truncate(round int) map[ref.Hash]struct{} {
 			}
 		}
 		if got.Cmp(net) != 0 {
+			if m.clipped[addr] {
+				m.addViol("C07", "checkpoint-clips-overdrawn-wallet", "after truncation #%d the checkpointed funds of %s are %s, the net flow of the checkpointed vertices is %s: at an earlier truncation the checkpointed vertices overdrew this wallet and its negative net was clipped", round, name, got, net)
+				continue
+			}
 			m.addViol("C07", "checkpoint-funds-wrong", "after truncation #%d the checkpointed funds of %s are %s; the net flow of the %d checkpointed vertices (each once) is %s", round, name, got, len(stored2), net)
 		}
 		// (a) balances per tip unchanged
